@@ -219,6 +219,13 @@ def builder_for(mode):
             with normalize:
                 r = build(prog, leaves)
             return funsor.reinterpret(r)
+        if mode == "chained_normalize":
+            from funsor.interpretations import normalize
+            with normalize:
+                ff = build(f, leaves)
+                for k, v in pairs:
+                    ff = ff(**{k: build(v, leaves)})
+            return funsor.reinterpret(ff)
         if mode == "chained":
             ff = build(f, leaves)
             for k, v in pairs:
@@ -233,13 +240,13 @@ def prog_worker(inst):
     from lang.prog import type_of, subs as P_subs
     _, mode, prog = inst
     tmo = 4000 if os.environ.get("VERIF_TIER", "quick") == "quick" else 30000
-    if mode == "chained":
+    if mode in ("chained", "chained_normalize"):
         # f(a)(b): the oracle is the NESTED substitution
         _, f, pairs = prog
         nested = f
         for k, v in pairs:
             nested = P_subs(nested, ((k, v),))
-        b = builder_for("chained")
+        b = builder_for(mode)
         out = check_prog(nested, lambda p, leaves: b(prog, leaves), label=mode, int_range_check=False, check_dtype=False, timeout_ms=tmo)
         return out
     out = check_prog(prog, builder_for(mode), label=mode, int_range_check=False, check_dtype=False, timeout_ms=tmo,
@@ -321,7 +328,7 @@ def subst_maps(f, rng, limit):
 
 def instances(tier, seed):
     from lang import gen
-    from lang.prog import subs
+    from lang.prog import subs, type_of
     from lang.gen import well_typed
     rng = random.Random(seed)
     out = [("slice_number",), ("slice_slice", 4 if tier == "quick" else 8)]
@@ -341,6 +348,29 @@ def instances(tier, seed):
         A, E = gen.atoms(theme)
         fs += [getitem_at(E[1], var("gj", ("bint", 2)), 1), getitem_at(E[2], var("gj", ("bint", 3)), 1), getitem(E[1], var("gi", ("bint", 3))),
                getitem(E[4], leaf("ir2", (("i", 2), ("k", 2)), (), ("int", 2)))]
+    # substitution of REAL inputs: tensors with batch inputs, numbers, expressions (into Lambda bodies, Stack parts, ...)
+    from lang.prog import binary as _b, lambda_ as _lam, num as _num, stack as _stack, unary as _un, var as _var
+    zs, zv2 = _var("zs", ("real", ())), _var("zv2", ("real", (2,)))
+    wl = leaf("wl", (("i", 2),), (), "real")
+    real_fs = [_lam("i", 2, zv2), _lam("i", 2, _b("add", wl, zs)), _lam("l2", 3, _b("mul", zv2, zs)), _stack("st", (wl, zs)), _un("exp", zv2),
+               _lam("i", 2, _stack("st", (wl, zs))), _b("sub", leaf("xr", (("j", 3),), (2,), "real"), zv2)]
+    real_vals = {"zs": [_num(1.5), leaf("vs", (("k", 2),), (), "real"), leaf("vsi", (("i", 2),), (), "real"), _b("add", leaf("vs", (("k", 2),), (), "real"), _var("q", ("real", ())))],
+                 "zv2": [leaf("vv", (), (2,), "real"), leaf("vvk", (("k", 2),), (2,), "real"), leaf("vvi", (("i", 2),), (2,), "real"), _b("mul", leaf("vv", (), (2,), "real"), _num(2.0))]}
+    for f in real_fs:
+        fin = type_of(f)[0]
+        rk = [k for k in ("zs", "zv2") if k in fin]
+        for combo in itertools.product(*[real_vals[k] for k in rk]):
+            m = tuple(zip(rk, combo))
+            p = subs(f, m)
+            if not well_typed(p):
+                continue
+            for md in ("eager", "lazyall", "normalize"):
+                out.append(("prog", md, p))
+            if any(d[0] == "bint" for d in fin.values()):
+                kb = next(k for k, d in fin.items() if d[0] == "bint")
+                p2 = subs(f, m + ((kb, _num(0, fin[kb][1])),))
+                if well_typed(p2):
+                    out.append(("prog", "eager", p2))
     per_f = 8 if tier == "quick" else 20
     for f in fs:
         for m in subst_maps(f, rng, per_f):
@@ -352,6 +382,8 @@ def instances(tier, seed):
                 out.append(("prog", md, p))
             if len(m) >= 2 and rng.random() < 0.5:
                 out.append(("prog", "chained", p))
+            if len(m) >= 2 and rng.random() < 0.4:
+                out.append(("prog", "chained_normalize", p))
     return out
 
 
